@@ -29,7 +29,7 @@ REG.schema('BaseServer', module='base_server', fields=dict(
     _async=RecF(websocket=Opaque('WSClass', True), queue=Opaque('QueueClass'), queue_empty=Opaque('ExcClass'),
                 thread=Opaque('ThreadClass'), event=Opaque('EventClass'),
                 sleep=Opaque('SleepFn'), translate_request=Opaque('Fn'),
-                make_response=Opaque('Fn'))))
+                make_response=Opaque('MakeResponse'))))
 REG.schema('Server', module='server', base='BaseServer',
            fields=dict(sockets=Dict(STR, Ref('Socket'))))
 REG.schema('AsyncServer', module='async_server', base='BaseServer',
